@@ -156,6 +156,22 @@ def d3_d4(chk: Check) -> None:
     par, ref = roles.get("parent"), roles.get("parentref")
     if not par or not ref:
         raise AnalysisError("_delete_nodes: parent/parentref roles missing")
+    # the coordinates are the *recorded* ones: the locals holding them are
+    # bound once per item and never adjusted (an adjustment computed from
+    # the raw positions of other records mixes negative and non-negative
+    # indexes of one list)
+    for role in (par, ref):
+        stores = [x for x in walk_local(loop)
+                  if isinstance(x, ast.Name) and x.id == role and
+                  isinstance(x.ctx, ast.Store)]
+        if len(stores) > 1:
+            chk.fail("C04-D3", dn, stores[1],
+                     "`{}` re-bound in the deletion loop".format(role),
+                     "the position deleted is no longer the one recorded "
+                     "for the match: an adjustment by the raw positions of "
+                     "earlier deletions treats a negative index as lying "
+                     "before every non-negative one, so `(l[1])+(l[-1])` "
+                     "removes other elements than the two matched")
     ef = Effects(prog)
     rec = _deletion_record(dn, loop, item, par, ref)
     for site in mutation_sites(dn):
